@@ -33,13 +33,20 @@ Nodes == 1..N
 RangeS(s) == {s[i] : i \in DOMAIN s}
 Merge(f, g) == [k \in DOMAIN f \cup DOMAIN g |-> IF k \in DOMAIN g THEN g[k] ELSE f[k]]
 Empty == <<>>
+(* overlay of one layer of methods over another: "its own replacing a parent's method of identical signature" -  *)
+(* whatever the lower layer has under a signature (its whole chain of re-registrations) is replaced by what the  *)
+(* upper layer has under it                                                                                     *)
+Overlay(f, g) ==
+  LET sg == {k[1] : k \in DOMAIN g}
+      keep == {k \in DOMAIN f : k[1] \notin sg}
+  IN [k \in keep \cup DOMAIN g |-> IF k \in DOMAIN g THEN g[k] ELSE f[k]]
 
 (* parents[n] < n : acyclic by construction *)
 RECURSIVE EffOf(_, _, _)
 EffOf(mx, ow, n) ==
   LET F[j \in 0..Len(mx[n])] ==
-        IF j = 0 THEN Empty ELSE Merge(F[j-1], EffOf(mx, ow, mx[n][j]))
-  IN Merge(F[Len(mx[n])], ow[n])
+        IF j = 0 THEN Empty ELSE Overlay(F[j-1], EffOf(mx, ow, mx[n][j]))
+  IN Overlay(F[Len(mx[n])], ow[n])
 Eff(n) == EffOf(mix, own, n)
 
 RECURSIVE AncOf(_, _)
